@@ -615,13 +615,17 @@ class Exec:
         if s.startswith('"') or s.startswith('b"'): return StrVal(s)
         m = re.match(r'^(-?[\d.]+(?:[eE][-+]?\d+)?)f(32|64)$', s)
         if m: return FloatV(float(m.group(1)))
-        m = re.match(r'^core::num::<impl (\w+)>::(MAX|MIN)$', s)
+        m = re.match(r'^(?:core::num::<impl )?(\w+?)>?::(MAX|MIN)$', s)
+        if m and m.group(1) not in INT_W: m = None
         if m: return bv(ty_range(m.group(1))[1 if m.group(2) == 'MAX' else 0], m.group(1))
         if s.startswith('ZeroSized: '):
             t = s[11:]
             if t.startswith('{closure@'): return Agg(t, None, [])
             return Opaque(t)
         key = re.sub(r'::<[^()]*?>', '', s)
+        mm = re.match(r'^(.+)::(\w+)$', key)
+        if mm and last_seg(mm.group(1)) in ENUMS and mm.group(2) in ENUMS[last_seg(mm.group(1))]:
+            en = last_seg(mm.group(1)); return Agg(en, ENUMS[en].index(mm.group(2)), [])
         suffix = '::'.join(key.split('::')[-2:]) if 'promoted[' in key else key.split('::')[-1]
         owner = last_seg(key.rsplit('::', 1)[0]) if '::' in key and 'promoted[' not in key else None
         for k in self.fns:
